@@ -554,7 +554,7 @@ Lemma run_kind_linear k g d v : kind_kernel k = Some g -> run_kind k d = COk v -
 Proof.
   destruct k; simpl; intros Hg; try discriminate; injection Hg as <-; unfold with_votes, ok_f;
     match goal with |- context [decode_all ?dec d] => destruct (decode_all dec d) as [vs|] eqn:E; [|discriminate] end.
-  - destruct (split && _); [discriminate|]. intros H. injection H as <-. rewrite (conv_decode _ _ _ _ E). reflexivity.
+  - intros H. injection H as <-. rewrite (conv_decode _ _ _ _ E). reflexivity.
   - intros H. injection H as <-. rewrite (conv_decode _ _ _ _ E). reflexivity.
   - unfold oconv. destruct (forallb _ vs); [|discriminate]. intros H. injection H as <-. rewrite (conv_decode _ _ _ _ E). reflexivity.
   - intros H. injection H as <-. rewrite (conv_decode _ _ _ _ E). reflexivity.
@@ -699,11 +699,11 @@ Proof.
   - vm_compute. discriminate.
 Qed.
 
-(* the split approval converter divides by the size of the ballot, also of the empty one (known finding C13-approval-split-empty) *)
-Lemma approval_split_empty_crashes :
-  exists d, NoDup (keys d) /\ run_code (KConv (KApprovalSimple true)) (VF d) = CErr E_ZERODIV /\
-            run_code (KChain [KConv KInvApproval; KConv (KApprovalSimple true)]) (VF [(L [A 1; A 2], 2); (L [A 1], 1)]) = CErr E_ZERODIV.
-Proof. exists [(L [], 3); (L [A 1; A 2], 1)]. repeat split. repeat constructor; simpl; intuition discriminate. Qed.
+(* after the fix: commit for C13-approval-split-empty an empty approval ballot contributes nothing (it used to end in ZeroDivisionError) *)
+Lemma approval_split_empty_ok :
+  run_code (KConv (KApprovalSimple true)) (VF [(L [], 3); (L [A 1; A 2], 1)]) = COk (VF [(A 1, 1 # 2); (A 2, 1 # 2)]) /\
+  run_code (KChain [KConv KInvApproval; KConv (KApprovalSimple true)]) (VF [(L [A 1; A 2], 2); (L [A 1], 1)]) = COk (VF [(A 2, 1)]).
+Proof. split; vm_compute; reflexivity. Qed.
 
 (* ================= SelectionToDistribution ================= *)
 Lemma value_gset (d : fdict) k x k' : value (gset sx_eqb d k x) k' == if sx_eqb k' k then x else value d k'.
